@@ -3,6 +3,8 @@ import PiqpModel.Api
 import PiqpProofs.Properties.C13
 import PiqpProofs.Properties.C14
 import Mathlib.Tactic.SplitIfs
+import PiqpProofs.Properties.C02
+import PiqpProofs.Garbage
 
 /-!
 # C10 — the answer does not depend on back end, KKT formulation or storage of P
@@ -559,4 +561,483 @@ theorem backends_agree_convex (be1 be2 : Backend) (st1 st2 : KKTSettings K) (d :
     (fun a ha => ⟨(t1l a ha).1.trans (t2l a ha).1.symm, (t1l a ha).2.trans (t2l a ha).2.symm⟩)
     (fun a ha => ⟨(t1u a ha).1.trans (t2u a ha).1.symm, (t1u a ha).2.trans (t2u a ha).2.symm⟩) key
 end inj
+end Piqp.C10
+
+/-! ## The whole trajectory is independent of the sparse formulation (two-run lock-step argument) -/
+namespace Piqp.C10
+open Piqp.C13 Piqp.C14 Piqp.C02 Piqp.C07
+section generic
+variable {K : Type}
+variable [Add K] [Sub K] [Mul K] [Div K] [Neg K] [Zero K] [One K] [LT K] [DecidableLT K] [LE K] [DecidableLE K] [BEq K]
+variable {σ σ' : Type}
+
+/-- two instantiations of the loop's numeric operations stay in lock-step under a relation of states *and* diagnostics, and the
+    factorisation that follows a rescaling succeeds in both (refinement off) -/
+structure OpsLock (st : Settings K) (cs : Consts K) (ops : LoopOps K σ) (ops' : LoopOps K σ') (R Rf : σ → σ' → Info K → Prop) : Prop where
+  hasIneq : ops.hasIneq = ops'.hasIneq
+  head : ∀ b s s' i, R s s' i → R (ops.head b s i).1 (ops'.head b s' i).1 (ops.head b s i).2 ∧ (ops'.head b s' i).2 = (ops.head b s i).2
+  reg : ∀ s s' i, R s s' i → R (ops.reg s i) (ops'.reg s' i) i
+  pprox : ∀ s s' i, R s s' i → ops'.pprox s' = ops.pprox s
+  pinfR : ∀ s s' i, R s s' i → ops'.pinfR s' = ops.pinfR s
+  dprox : ∀ s s' i, R s s' i → ops'.dprox s' = ops.dprox s
+  dinfR : ∀ s s' i, R s s' i → ops'.dinfR s' = ops.dinfR s
+  shift : ∀ s s' i, R s s' i → R (ops.shift s i).1 (ops'.shift s' i).1 (ops.shift s i).2 ∧ (ops'.shift s' i).2 = (ops.shift s i).2
+  finetune : ∀ s s' i, R s s' i → R s s' (finetuneSwitch st i)
+  rescale : ∀ s s' i, R s s' i →
+    (ops.factor false (ops.rescale s i)).2 = true ∧ (ops'.factor false (ops'.rescale s' i)).2 = true ∧
+    Rf (ops.factor false (ops.rescale s i)).1 (ops'.factor false (ops'.rescale s' i)).1 i
+  step : ∀ s s' i (it : Nat), Rf s s' i →
+    (ops'.stepNum false s' { i with iter := it, factorRetires := 0 }).2 = (ops.stepNum false s { i with iter := it, factorRetires := 0 }).2 ∧
+    (let sn := ops.stepNum false s { i with iter := it, factorRetires := 0 }
+     let ru := if ops.hasIneq then regUpdateIneq st cs sn.2.1 sn.2.2.1 sn.2.1.mu sn.2.2.2.1 sn.2.2.2.2.1 sn.2.2.2.2.2.1 sn.2.2.2.2.2.2
+               else regUpdateEq cs sn.2.1 sn.2.2.2.1 sn.2.2.2.2.2.1
+     R (ops.applyFlags sn.1 ru.2.1 ru.2.2) (ops'.applyFlags (ops'.stepNum false s' { i with iter := it, factorRetires := 0 }).1 ru.2.1 ru.2.2) ru.1)
+
+omit [Neg K] [LE K] [DecidableLE K] in
+theorem loopG_lock (st : Settings K) (cs : Consts K) (ops : LoopOps K σ) (ops' : LoopOps K σ') (R Rf : σ → σ' → Info K → Prop)
+    (ho : OpsLock st cs ops ops' R Rf) (c : Ctrl) (s : σ) (info : Info K) :
+    ∀ s', c.refineOn = false → R s s' info →
+      (loopG st cs ops' c s' info).1.1 = (loopG st cs ops c s info).1.1 ∧
+      (loopG st cs ops' c s' info).1.2.2 = (loopG st cs ops c s info).1.2.2 ∧
+      (loopG st cs ops' c s' info).2 = (loopG st cs ops c s info).2 ∧
+      ∃ i, R (loopG st cs ops c s info).1.2.1 (loopG st cs ops' c s' info).1.2.1 i := by
+  fun_induction loopG st cs ops c s info
+  case case1 c s info hlt hi hterm =>
+    intro s' hb hR
+    obtain ⟨hR1, hI⟩ := ho.head (c.iter == 0) s s' info hR
+    rw [loopG.eq_def st cs ops' c s' info]
+    simp only [hi] at hterm hR1 ⊢
+    simp only [hlt, dite_true, hI, hterm, if_true]
+    exact ⟨trivial, trivial, trivial, _, hR1⟩
+  case case2 c s info hlt hi hterm s1 hp =>
+    intro s' hb hR
+    obtain ⟨hR1, hI⟩ := ho.head (c.iter == 0) s s' info hR
+    have hR2 := ho.reg _ _ _ hR1
+    rw [loopG.eq_def st cs ops' c s' info]
+    simp only [hi, s1] at hterm hp hR1 hR2 ⊢
+    simp only [hlt, dite_true, hI, hterm, Bool.false_eq_true, if_false, ho.pprox _ _ _ hR2, ho.pinfR _ _ _ hR2, hp, if_true]
+    exact ⟨trivial, trivial, trivial, _, hR2⟩
+  case case3 c s info hlt hi hterm s1 hp hd =>
+    intro s' hb hR
+    obtain ⟨hR1, hI⟩ := ho.head (c.iter == 0) s s' info hR
+    have hR2 := ho.reg _ _ _ hR1
+    rw [loopG.eq_def st cs ops' c s' info]
+    simp only [hi, s1] at hterm hp hd hR1 hR2 ⊢
+    simp only [hlt, dite_true, hI, hterm, Bool.false_eq_true, if_false, ho.pprox _ _ _ hR2, ho.pinfR _ _ _ hR2, hp,
+      ho.dprox _ _ _ hR2, ho.dinfR _ _ _ hR2, hd, if_true]
+    exact ⟨trivial, trivial, trivial, _, hR2⟩
+  case case4 c s info hlt hi hterm s1 hp hd iter1 sh info2 s2 fa hfa sn info3 ru s4 ih =>
+    intro s' hb hR
+    obtain ⟨hR1, hI⟩ := ho.head (c.iter == 0) s s' info hR
+    have hR2 := ho.reg _ _ _ hR1
+    have hSh := ho.shift _ _ _ hR2
+    have hFt := ho.finetune _ _ _ hSh.1
+    have hRs := ho.rescale _ _ _ hFt
+    have hSn := ho.step _ _ _ (c.iter + 1) hRs.2.2
+    rw [loopG.eq_def st cs ops' c s' info]
+    simp only [hi, s1, iter1, sh, info2, s2, fa, sn, info3, ru, s4, hb] at hterm hp hd hfa ih hSn ⊢
+    simp only [hlt, dite_true, hI, hterm, Bool.false_eq_true, if_false, ho.pprox _ _ _ hR2, ho.pinfR _ _ _ hR2, hp,
+      ho.dprox _ _ _ hR2, ho.dinfR _ _ _ hR2, hd, hSh.2, hRs.2.1, if_true, hSn.1, ← ho.hasIneq]
+    exact ih _ trivial hSn.2
+  case case5 c s info hlt hi hterm s1 hp hd iter1 sh info2 s2 fa hfa hr ih =>
+    intro s' hb hR
+    obtain ⟨hR1, hI⟩ := ho.head (c.iter == 0) s s' info hR
+    have hR2 := ho.reg _ _ _ hR1
+    have hSh := ho.shift _ _ _ hR2
+    have hFt := ho.finetune _ _ _ hSh.1
+    have hRs := ho.rescale _ _ _ hFt
+    simp only [hi, s1, iter1, sh, info2, s2, fa, hb] at hfa
+    exact absurd hRs.1 hfa
+  case case6 c s info hlt hi hterm s1 hp hd sh info2 s2 fa hfa hr hf ih =>
+    intro s' hb hR
+    exact absurd hb hr
+  case case7 c s info hlt hi hterm s1 hp hd iter1 sh info2 s2 fa hfa hr hf =>
+    intro s' hb hR
+    exact absurd hb hr
+  case case8 c s info hlt =>
+    intro s' hb hR
+    rw [loopG.eq_def st cs ops' c s' info]
+    simp only [hlt, dite_false]
+    exact ⟨trivial, trivial, trivial, _, hR⟩
+end generic
+
+section lock
+variable {K : Type} [Field K] [LinearOrder K] [IsStrictOrderedRing K] [Inhabited K]
+variable {n p m : Nat}
+
+/-- a factorised KKT state at an interior point, with positive regularisation -/
+structure Factored (be : Backend) (d : Data K n p m) (k : KKT K n p m) : Prop where
+  slv : ∃ slv, k.fsol = some slv ∧ InnerExact be k.k slv
+  coh : Coherent be d k
+  rho : 0 < k.rho
+  delta : 0 < k.delta
+  s : ∀ t : Fin m, 0 < k.s[t]
+  zinv : ∀ t : Fin m, 0 < k.zinv[t]
+  s_lb : ∀ a : Fin n, d.lb.act a → 0 < k.s_lb[a]
+  zinv_lb : ∀ a : Fin n, d.lb.act a → 0 < k.zinv_lb[a]
+  s_ub : ∀ a : Fin n, d.ub.act a → 0 < k.s_ub[a]
+  zinv_ub : ∀ a : Fin n, d.ub.act a → 0 < k.zinv_ub[a]
+
+theorem Factored.interior {be : Backend} {d : Data K n p m} {k : KKT K n p m} (h : Factored be d k) : Interior d k where
+  delta := ne_of_gt h.delta
+  zinv := fun t => ne_of_gt (h.zinv t)
+  s := fun t => ne_of_gt (h.s t)
+  w := fun t => ne_of_gt (by have := mul_pos (h.s t) (h.zinv t); linarith [h.delta])
+  zinv_lb := fun a ha => ne_of_gt (h.zinv_lb a ha)
+  s_lb := fun a ha => ne_of_gt (h.s_lb a ha)
+  w_lb := fun a ha => ne_of_gt (by have := mul_pos (h.s_lb a ha) (h.zinv_lb a ha); linarith [h.delta])
+  zinv_ub := fun a ha => ne_of_gt (h.zinv_ub a ha)
+  s_ub := fun a ha => ne_of_gt (h.s_ub a ha)
+  w_ub := fun a ha => ne_of_gt (by have := mul_pos (h.s_ub a ha) (h.zinv_ub a ha); linarith [h.delta])
+
+/-- two factorised states with the same scalings answer every right-hand side alike, whatever their formulations -/
+theorem solveOr_agree (e1 e2 : Env K n p m) (hd : e2.data = e1.data) (k1 k2 : KKT K n p m)
+    (hP : ∀ x : Vec K n, 0 ≤ quad e1.data.Psym x)
+    (h1 : Factored e1.be e1.data k1) (h2 : Factored e2.be e1.data k2) (hs : SameScalings k1 k2) (r old : Step K n p m) :
+    solveOr e2 false k2 r old = solveOr e1 false k1 r old := by
+  obtain ⟨slv1, hf1, hx1⟩ := h1.slv
+  obtain ⟨slv2, hf2, hx2⟩ := h2.slv
+  have s1 : KKT.solve e1.be e1.st.kkt e1.data k1 r old false = some (recover e1.be e1.data k1 r old (slv1 (rxOf e1.be e1.data k1 r) r.y (zbarOf e1.be k1 r))) := by
+    unfold KKT.solve; simp only [hf1, Bool.false_and, Bool.false_eq_true, if_false]
+  have s2 : KKT.solve e2.be e2.st.kkt e1.data k2 r old false = some (recover e2.be e1.data k2 r old (slv2 (rxOf e2.be e1.data k2 r) r.y (zbarOf e2.be k2 r))) := by
+    unfold KKT.solve; simp only [hf2, Bool.false_and, Bool.false_eq_true, if_false]
+  have := backends_agree_convex e1.be e2.be e1.st.kkt e2.st.kkt e1.data k1 k2 r old _ _ slv1 slv2 hs hf1 h1.coh hx1 h1.interior
+    hf2 h2.coh hx2 h2.interior s1 s2 hP h1.rho h1.delta h1.s h1.zinv h1.s_lb h1.zinv_lb h1.s_ub h1.zinv_ub
+  unfold solveOr
+  rw [hd, s1, s2]
+  exact this.symm
+
+theorem regFactor_fields (be : Backend) (st : KKTSettings K) (d : Data K n p m) (k : KKT K n p m) (b : Bool) (inner : Inner K n p m) :
+    (KKT.regFactor be st d k b inner).rho = k.rho ∧ (KKT.regFactor be st d k b inner).delta = k.delta ∧
+    (KKT.regFactor be st d k b inner).s = k.s ∧ (KKT.regFactor be st d k b inner).zinv = k.zinv ∧
+    (KKT.regFactor be st d k b inner).s_lb = k.s_lb ∧ (KKT.regFactor be st d k b inner).zinv_lb = k.zinv_lb ∧
+    (KKT.regFactor be st d k b inner).s_ub = k.s_ub ∧ (KKT.regFactor be st d k b inner).zinv_ub = k.zinv_ub ∧
+    (KKT.regFactor be st d k b inner).k = k.k := ⟨rfl, rfl, rfl, rfl, rfl, rfl, rfl, rfl, rfl⟩
+
+/-- the scalings after `update_scalings` + factorisation are a function of the iterate and of the previous scalings -/
+theorem scalings_after_rescale (e1 e2 : Env K n p m) (hd : e2.data = e1.data) (k1 k2 : KKT K n p m) (w : Work K n p m) (rho delta : K)
+    (b : Bool) (hs : SameScalings k1 k2) :
+    SameScalings (KKT.regFactor e1.be e1.st.kkt e1.data (kktScal e1 k1 w rho delta) b e1.inner)
+      (KKT.regFactor e2.be e2.st.kkt e2.data (kktScal e2 k2 w rho delta) b e2.inner) := by
+  obtain ⟨a1, a2, a3, a4, a5, a6, a7, a8, _⟩ := regFactor_fields e1.be e1.st.kkt e1.data (kktScal e1 k1 w rho delta) b e1.inner
+  obtain ⟨b1, b2, b3, b4, b5, b6, b7, b8, _⟩ := regFactor_fields e2.be e2.st.kkt e2.data (kktScal e2 k2 w rho delta) b e2.inner
+  obtain ⟨f1, f2, f3, f4, f5, f6, f7, f8⟩ := us_fields e1.be e1.data k1 rho delta w.s w.s_lb w.s_ub w.z w.z_lb w.z_ub
+  obtain ⟨g1, g2, g3, g4, g5, g6, g7, g8⟩ := us_fields e2.be e2.data k2 rho delta w.s w.s_lb w.s_ub w.z w.z_lb w.z_ub
+  unfold kktScal at *
+  exact ⟨by rw [a1, b1, f1, g1], by rw [a2, b2, f2, g2], by rw [a3, b3, f3, g3], by rw [a4, b4, f4, g4],
+    by rw [a5, b5, f5, g5, hd, hs.s_lb], by rw [a6, b6, f7, g7, hd, hs.zinv_lb],
+    by rw [a7, b7, f6, g6, hd, hs.s_ub], by rw [a8, b8, f8, g8, hd, hs.zinv_ub]⟩
+
+/-- after `update_scalings` at an interior iterate with positive `ρ, δ`, a sparse back end's plain factorisation succeeds and the
+    state it leaves is `Factored` -/
+theorem factored_after_rescale (e : Env K n p m) (perm : Vector (Fin (n + p + m)) (n + p + m)) (hperm : IsPerm perm)
+    (hsp : e.be.isDense = false) (hin : e.inner = innerLDLT e.be perm)
+    (hP : ∀ x : Vec K n, 0 ≤ quad e.data.Psym x) (s : NumState K n p m) (i : Info K) (h : ConvInv e s i) :
+    Factored e.be e.data (KKT.regFactor e.be e.st.kkt e.data (kktScal e s.2 s.1 i.rho i.delta) false e.inner) := by
+  have hok := factor_after_rescale e perm hperm hsp hin hP false s i h
+  obtain ⟨hcone, hcache, hρ, hδ, _⟩ := h
+  obtain ⟨hcoh, _⟩ := C13.updateScalings_coherent e.be e.data s.2 i.rho i.delta s.1.s s.1.s_lb s.1.s_ub s.1.z s.1.z_lb s.1.z_ub hcache
+  obtain ⟨f1, f2, f3, f4, f5, f6, f7, f8⟩ := us_fields e.be e.data s.2 i.rho i.delta s.1.s s.1.s_lb s.1.s_ub s.1.z s.1.z_lb s.1.z_ub
+  simp only [realOps] at hok
+  unfold kktScal at hok ⊢
+  generalize KKT.updateScalings e.be e.data s.2 i.rho i.delta s.1.s s.1.s_lb s.1.s_ub s.1.z s.1.z_lb s.1.z_ub = k' at *
+  have hcoh' : Coherent e.be e.data (KKT.regFactor e.be e.st.kkt e.data k' false e.inner) := ⟨hcoh.xx, hcoh.xy, hcoh.yy, hcoh.xz, hcoh.zz⟩
+  refine ⟨?_, hcoh', ?_, ?_, ?_, ?_, ?_, ?_, ?_, ?_⟩
+  · cases hs : e.inner k'.k with
+    | none =>
+      have : (KKT.regFactor e.be e.st.kkt e.data k' false e.inner).fsol = none := by simp [KKT.regFactor, hs]
+      simp [KKT.factOk, this] at hok
+    | some slv =>
+      have hf : (KKT.regFactor e.be e.st.kkt e.data k' false e.inner).fsol = some slv := by simp [KKT.regFactor, hs]
+      refine ⟨slv, hf, ?_⟩
+      rw [hin] at hs
+      exact innerLDLT_exact e.be perm hperm k'.k (coherent_xx_symm e.be e.data k' hcoh) slv hs
+  · show 0 < k'.rho; rw [f1]; exact hρ
+  · show 0 < k'.delta; rw [f2]; exact hδ
+  · intro t; show 0 < k'.s[t]; rw [f3]; exact hcone.s t
+  · intro t; show 0 < k'.zinv[t]; rw [f4, C13.ofFn_get]; exact one_div_pos.mpr (hcone.z t)
+  · intro a ha; show 0 < k'.s_lb[a]; rw [f5, C13.headUpd_get]; simp only [ha, if_true]; exact hcone.s_lb a ha
+  · intro a ha; show 0 < k'.zinv_lb[a]; rw [f7, C13.headUpd_get]; simp only [ha, if_true]; exact one_div_pos.mpr (hcone.z_lb a ha)
+  · intro a ha; show 0 < k'.s_ub[a]; rw [f6, C13.headUpd_get]; simp only [ha, if_true]; exact hcone.s_ub a ha
+  · intro a ha; show 0 < k'.zinv_ub[a]; rw [f8, C13.headUpd_get]; simp only [ha, if_true]; exact one_div_pos.mpr (hcone.z_ub a ha)
+
+/-- the same problem handed to another sparse formulation / ordering -/
+def withBackend (e : Env K n p m) (be2 : Backend) (perm2 : Vector (Fin (n + p + m)) (n + p + m)) : Env K n p m :=
+  { e with be := be2, inner := innerLDLT be2 perm2 }
+
+section wb
+variable (e : Env K n p m) (be2 : Backend) (perm2 : Vector (Fin (n + p + m)) (n + p + m))
+theorem wb_head (b : Bool) (w : Work K n p m) (i : Info K) : headInfo (withBackend e be2 perm2) b w i = headInfo e b w i := rfl
+theorem wb_reg (w : Work K n p m) (i : Info K) : regResiduals (withBackend e be2 perm2) w i = regResiduals e w i := rfl
+theorem wb_shift (w : Work K n p m) (i : Info K) : shiftOp (withBackend e be2 perm2) w i = shiftOp e w i := rfl
+theorem wb_flags (w : Work K n p m) (a b : Bool) : applyFlagsOp (withBackend e be2 perm2) w a b = applyFlagsOp e w a b := rfl
+theorem wb_pprox (w : Work K n p m) : primalProxInf (withBackend e be2 perm2) w = primalProxInf e w := rfl
+theorem wb_pinfR (w : Work K n p m) : primalInfR (withBackend e be2 perm2) w = primalInfR e w := rfl
+theorem wb_dprox (w : Work K n p m) : dualProxInf (withBackend e be2 perm2) w = dualProxInf e w := rfl
+theorem wb_dinfR (w : Work K n p m) : dualInfR (withBackend e be2 perm2) w = dualInfR e w := rfl
+theorem wb_staged (b : Bool) (k1 k2 : KKT K n p m) (w : Work K n p m) (i : Info K)
+    (h : ∀ r old, solveOr (withBackend e be2 perm2) b k2 r old = solveOr e b k1 r old) :
+    stepNumOp (withBackend e be2 perm2) b k2 w i = stepNumOp e b k1 w i := by
+  rw [stepNumOp_staged, stepNumOp_staged]
+  unfold stepNumStaged
+  simp only [h]
+  rfl
+end wb
+
+def LockR (e1 e2 : Env K n p m) (s1 s2 : NumState K n p m) (i : Info K) : Prop :=
+  s2.1 = s1.1 ∧ SameScalings s1.2 s2.2 ∧ ConvInv e1 s1 i ∧ ConvInv e2 s2 i
+
+def LockF (e1 e2 : Env K n p m) (s1 s2 : NumState K n p m) (i : Info K) : Prop :=
+  LockR e1 e2 s1 s2 i ∧ Factored e1.be e1.data s1.2 ∧ Factored e2.be e1.data s2.2
+
+theorem realOps_lock (e : Env K n p m) (perm1 perm2 : Vector (Fin (n + p + m)) (n + p + m)) (hp1 : IsPerm perm1) (hp2 : IsPerm perm2)
+    (be2 : Backend) (hsp1 : e.be.isDense = false) (hsp2 : be2.isDense = false) (hin : e.inner = innerLDLT e.be perm1)
+    (hP : ∀ x : Vec K n, 0 ≤ quad e.data.Psym x)
+    (hτ0 : 0 < e.st.tau) (hτ1 : e.st.tau < 1) (heps : 0 ≤ e.cs.machEps) (hft : 0 < e.st.regFinetuneLowerLimit) :
+    OpsLock e.st e.cs (realOps e) (realOps (withBackend e be2 perm2)) (LockR e (withBackend e be2 perm2)) (LockF e (withBackend e be2 perm2)) := by
+  have I1 := realOps_convInv e (factor_after_rescale e perm1 hp1 hsp1 hin hP) hτ0 hτ1 heps hft
+  have I2 := realOps_convInv (withBackend e be2 perm2) (factor_after_rescale (withBackend e be2 perm2) perm2 hp2 hsp2 rfl hP) hτ0 hτ1 heps hft
+  refine ⟨rfl, ?_, ?_, ?_, ?_, ?_, ?_, ?_, ?_, ?_, ?_⟩
+  · intro b s s' i h
+    obtain ⟨hw, hs, h1, h2⟩ := h
+    have e2 : (realOps (withBackend e be2 perm2)).head b s' i = (((headInfo e b s.1 i).1, s'.2), (headInfo e b s.1 i).2) := by
+      simp only [realOps, wb_head, hw]
+    refine ⟨⟨?_, hs, I1.head b s i h1, ?_⟩, ?_⟩
+    · rw [e2]; rfl
+    · have := I2.head b s' i h2
+      rw [e2] at this ⊢
+      exact this
+    · rw [e2]; rfl
+  · -- reg
+    intro s s' i h
+    obtain ⟨hw, hs, h1, h2⟩ := h
+    have e2 : (realOps (withBackend e be2 perm2)).reg s' i = (regResiduals e s.1 i, s'.2) := by
+      simp only [realOps, wb_reg, hw]
+    refine ⟨?_, hs, I1.reg s i h1, ?_⟩
+    · rw [e2]; rfl
+    · have := I2.reg s' i h2
+      rw [e2] at this ⊢
+      exact this
+  · intro s s' i h; simp only [realOps, wb_pprox, h.1]
+  · intro s s' i h; simp only [realOps, wb_pinfR, h.1]
+  · intro s s' i h; simp only [realOps, wb_dprox, h.1]
+  · intro s s' i h; simp only [realOps, wb_dinfR, h.1]
+  · -- shift
+    intro s s' i h
+    obtain ⟨hw, hs, h1, h2⟩ := h
+    have e2 : (realOps (withBackend e be2 perm2)).shift s' i = (((shiftOp e s.1 i).1, s'.2), (shiftOp e s.1 i).2) := by
+      simp only [realOps, wb_shift, hw]
+    refine ⟨⟨?_, hs, I1.shift s i h1, ?_⟩, ?_⟩
+    · rw [e2]; rfl
+    · have := I2.shift s' i h2
+      rw [e2] at this ⊢
+      exact this
+    · rw [e2]; rfl
+  · -- finetune
+    intro s s' i h
+    exact ⟨h.1, h.2.1, I1.finetune s i h.2.2.1, I2.finetune s' i h.2.2.2⟩
+  · -- rescale + factor
+    intro s s' i h
+    obtain ⟨hw, hs, h1, h2⟩ := h
+    obtain ⟨ok1, c1⟩ := I1.rescale false s i h1
+    obtain ⟨ok2, c2⟩ := I2.rescale false s' i h2
+    have F1 := factored_after_rescale e perm1 hp1 hsp1 hin hP s i h1
+    have F2 := factored_after_rescale (withBackend e be2 perm2) perm2 hp2 hsp2 rfl hP s' i h2
+    have S := scalings_after_rescale e (withBackend e be2 perm2) rfl s.2 s'.2 s.1 i.rho i.delta false hs
+    refine ⟨ok1, ok2, ⟨?_, ?_, c1, c2⟩, F1, ?_⟩
+    · exact hw
+    · show SameScalings (KKT.regFactor _ _ _ (kktScal e s.2 s.1 _ _) false _) (KKT.regFactor _ _ _ (kktScal _ s'.2 s'.1 _ _) false _)
+      rw [hw]; exact S
+    · exact F2
+  · -- step
+    intro s s' i it h
+    obtain ⟨⟨hw, hs, h1, h2⟩, F1, F2⟩ := h
+    have hsolve := solveOr_agree e (withBackend e be2 perm2) rfl s.2 s'.2 hP F1 F2 hs
+    have hstep : stepNumOp (withBackend e be2 perm2) false s'.2 s'.1 { i with iter := it, factorRetires := 0 } =
+        stepNumOp e false s.2 s.1 { i with iter := it, factorRetires := 0 } := by
+      rw [hw]; exact wb_staged e be2 perm2 false s.2 s'.2 s.1 _ hsolve
+    have e2s : (realOps (withBackend e be2 perm2)).stepNum false s' { i with iter := it, factorRetires := 0 } =
+        (((stepNumOp e false s.2 s.1 { i with iter := it, factorRetires := 0 }).1, s'.2),
+          (stepNumOp e false s.2 s.1 { i with iter := it, factorRetires := 0 }).2) := by
+      simp only [realOps]; rw [hstep]
+    have J1 := I1.step false s i it h1
+    have J2 := I2.step false s' i it h2
+    simp only [e2s] at J2 ⊢
+    refine ⟨rfl, rfl, hs, J1, J2⟩
+
+/-- **C10, the whole trajectory is independent of the formulation.** On a convex problem, in exact arithmetic and with iterative
+    refinement off, the main loop run with any sparse formulation and any fill-reducing ordering (`withBackend e be2 perm2`) passes
+    through the same iterates as the run with `e.be` / `perm1`: same final iterate and workspace, same diagnostics (`info`: status,
+    iteration count, residuals, objectives, `ρ`, `δ`), same loop control, same returned status.  The two runs may start from
+    different KKT objects as long as these carry the same scalings.  (Refinement stays off in both because no factorisation
+    fails, `convex_never_numerics`.) -/
+theorem trajectories_agree (e : Env K n p m) (perm1 perm2 : Vector (Fin (n + p + m)) (n + p + m)) (hp1 : IsPerm perm1) (hp2 : IsPerm perm2)
+    (be2 : Backend) (hsp1 : e.be.isDense = false) (hsp2 : be2.isDense = false) (hin : e.inner = innerLDLT e.be perm1)
+    (hP : ∀ x : Vec K n, 0 ≤ quad e.data.Psym x)
+    (hτ0 : 0 < e.st.tau) (hτ1 : e.st.tau < 1) (heps : 0 ≤ e.cs.machEps) (hft : 0 < e.st.regFinetuneLowerLimit)
+    (ls : LoopState K n p m) (kkt2 : KKT K n p m) (hr : ls.c.refineOn = false) (hs : SameScalings ls.kkt kkt2)
+    (h1 : ConvInv e (ls.w, ls.kkt) ls.info) (h2 : ConvInv (withBackend e be2 perm2) (ls.w, kkt2) ls.info) :
+    (mainLoop (withBackend e be2 perm2) { ls with kkt := kkt2 }).2 = (mainLoop e ls).2 ∧
+    (mainLoop (withBackend e be2 perm2) { ls with kkt := kkt2 }).1.w = (mainLoop e ls).1.w ∧
+    (mainLoop (withBackend e be2 perm2) { ls with kkt := kkt2 }).1.info = (mainLoop e ls).1.info ∧
+    (mainLoop (withBackend e be2 perm2) { ls with kkt := kkt2 }).1.c = (mainLoop e ls).1.c := by
+  have L := loopG_lock e.st e.cs (realOps e) (realOps (withBackend e be2 perm2)) _ _
+    (realOps_lock e perm1 perm2 hp1 hp2 be2 hsp1 hsp2 hin hP hτ0 hτ1 heps hft) ls.c (ls.w, ls.kkt) ls.info (ls.w, kkt2) hr ⟨rfl, hs, h1, h2⟩
+  obtain ⟨l1, l2, l3, i, l4⟩ := L
+  unfold mainLoop
+  exact ⟨l3, l4.1, l2, l1⟩
+end lock
+
+/-! ## ... and so is the answer of `solve()` -/
+section solveLevel
+variable {K : Type} [Field K] [LinearOrder K] [IsStrictOrderedRing K] [Inhabited K]
+variable {n p m : Nat}
+
+/-- the same solver object re-targeted at another formulation, with that formulation's own KKT object -/
+def retarget (s : Solver K n p m) (be2 : Backend) (kkt2 : KKT K n p m) : Solver K n p m := { s with be := be2, kkt := kkt2 }
+
+theorem env_retarget (cs : Consts K) (sqrtF : K → K) (s : Solver K n p m) (be2 : Backend) (kkt2 : KKT K n p m)
+    (perm1 perm2 : Vector (Fin (n + p + m)) (n + p + m)) (hsp2 : be2.isDense = false) :
+    Solver.env cs sqrtF (retarget s be2 kkt2) perm2 = withBackend (Solver.env cs sqrtF s perm1) be2 perm2 := by
+  simp only [Solver.env, withBackend, retarget, execInner, hsp2, Bool.false_eq_true, if_false]
+
+theorem ipBeforeShift_agree (cs : Consts K) (sqrtF : K → K) (s : Solver K n p m) (be2 : Backend) (kkt2' : KKT K n p m)
+    (perm1 perm2 : Vector (Fin (n + p + m)) (n + p + m)) (w0 : Work K n p m) (k1 k2 : KKT K n p m)
+    (hP : ∀ x : Vec K n, 0 ≤ quad s.data.Psym x)
+    (h1 : Factored s.be s.data k1) (h2 : Factored be2 s.data k2) (hs : SameScalings k1 k2) :
+    ipBeforeShift cs (retarget s be2 kkt2') (withBackend (Solver.env cs sqrtF s perm1) be2 perm2) w0 k2 false =
+      ipBeforeShift cs s (Solver.env cs sqrtF s perm1) w0 k1 false := by
+  rw [ipBeforeShift_eq, ipBeforeShift_eq]
+  exact congrArg (ipFrom cs s.data w0)
+    (solveOr_agree (Solver.env cs sqrtF s perm1) (withBackend (Solver.env cs sqrtF s perm1) be2 perm2) rfl k1 k2 hP h1 h2 hs (ipRhs s.data) (ipOld w0))
+
+/-- what `solve()` starts from (after an `update()` or an earlier `solve()`): slacks and multipliers at one, `ρ, δ` at their
+    initial values — inside the cone, and the KKT object it factorises is the rescaled one -/
+theorem solve_start_facts (cs : Consts K) (sqrtF : K → K) (s : Solver K n p m) (perm : Vector (Fin (n + p + m)) (n + p + m))
+    (hv : s.st.verify = true) (hc : C13.CachesOk s.be s.data s.kkt) (hki : s.kktInitState = false) :
+    ConvInv (Solver.env cs sqrtF s perm) ((solveStart cs sqrtF s perm).1, s.kkt) (solveStart cs sqrtF s perm).2.2 ∧
+    ((solveStart cs sqrtF s perm).1, (solveStart cs sqrtF s perm).2.1) =
+      (realOps (Solver.env cs sqrtF s perm)).rescale ((solveStart cs sqrtF s perm).1, s.kkt) (solveStart cs sqrtF s perm).2.2 := by
+  obtain ⟨hρ0, hδ0, hrl, hτ0⟩ := verify_facts s.st hv
+  constructor
+  · refine ⟨?_, hc, hρ0, hδ0, hrl⟩
+    simp only [solveStart, Solver.env]
+    refine ⟨fun i => ?_, fun i => ?_, fun i hi => ?_, fun i hi => ?_, fun i hi => ?_, fun i hi => ?_⟩
+    · simp [Vec.const]
+    · simp [Vec.const]
+    · rw [C08.headUpd_get']; simp [hi]
+    · rw [C08.headUpd_get']; simp [hi]
+    · rw [C08.headUpd_get']; simp [hi]
+    · rw [C08.headUpd_get']; simp [hi]
+  · refine Prod.ext rfl ?_
+    simp only [solveStart, hki, Bool.not_false, if_true, realOps]
+
+
+/-- `solve()` when the first factorisation succeeds: initial point, main loop, unscaling -/
+theorem solveTyped_of_factor (cs : Consts K) (sqrtF : K → K) (s : Solver K n p m) (perm : Vector (Fin (n + p + m)) (n + p + m))
+    (hv : s.st.verify = true)
+    (hfa : ((realOps (Solver.env cs sqrtF s perm)).factor s.refineOn ((solveStart cs sqrtF s perm).1, (solveStart cs sqrtF s perm).2.1)).2 = true) :
+    solveTyped cs sqrtF s perm =
+      (let e := Solver.env cs sqrtF s perm
+       let fa := (realOps e).factor s.refineOn ((solveStart cs sqrtF s perm).1, (solveStart cs sqrtF s perm).2.1)
+       let r := mainLoop e (initialPoint cs s e (solveStart cs sqrtF s perm).1 fa.1.2 (solveStart cs sqrtF s perm).2.2 s.refineOn)
+       ({ s with w := restoreBoxDual cs s.data (unscaleResults s.pk s.pre r.1.w), info := r.1.info, kkt := r.1.kkt,
+                 kktInitState := false, refineOn := r.1.c.refineOn }, r.2)) := by
+  unfold solveTyped
+  simp only [hv, Bool.not_true, Bool.false_eq_true, if_false]
+  rw [initLoopG.eq_def]
+  simp only [hfa, if_true, Bool.not_true, Bool.false_eq_true, if_false]
+
+/-- **C10 at the level of `solve()`: the answer does not depend on the sparse formulation or the ordering.** Take a solver object
+    with a sparse back end (`kktInitState = false`, refinement off, valid settings, scaled `P ⪰ 0`, caches in agreement with the
+    data) and the same object re-targeted at another sparse formulation with its own KKT object and its own fill-reducing
+    permutation.  In exact arithmetic `solve()` returns the same status, the same results workspace (`x, y, z, z_lb, z_ub, s, …`)
+    and the same `info` in both. -/
+theorem solve_backend_independent (cs : Consts K) (sqrtF : K → K) (s : Solver K n p m)
+    (perm1 perm2 : Vector (Fin (n + p + m)) (n + p + m)) (hp1 : IsPerm perm1) (hp2 : IsPerm perm2)
+    (be2 : Backend) (kkt2 : KKT K n p m) (hsp1 : s.be.isDense = false) (hsp2 : be2.isDense = false)
+    (hv : s.st.verify = true) (hτ1 : s.st.tau < 1) (hft : 0 < s.st.regFinetuneLowerLimit) (heps : 0 ≤ cs.machEps)
+    (h15 : 1 ≤ cs.c1_5) (h05 : 0 < cs.c0_5)
+    (hP : ∀ x : Vec K n, 0 ≤ quad s.data.Psym x)
+    (hc1 : C13.CachesOk s.be s.data s.kkt) (hc2 : C13.CachesOk be2 s.data kkt2) (hss : SameScalings s.kkt kkt2)
+    (hki : s.kktInitState = false) (hr : s.refineOn = false)
+    (hnl : s.data.lb.cnt ≤ n) (hnu : s.data.ub.cnt ≤ n)
+    (hguard : ∀ (w0 : Work K n p m) (kkt1 : KKT K n p m) (b : Bool), m + s.data.lb.cnt + s.data.ub.cnt ≠ 0 →
+      0 < (mehrotraShift cs s.data (ipBeforeShift cs s (Solver.env cs sqrtF s perm1) w0 kkt1 b)).2.2) :
+    (solveTyped cs sqrtF (retarget s be2 kkt2) perm2).2 = (solveTyped cs sqrtF s perm1).2 ∧
+    (solveTyped cs sqrtF (retarget s be2 kkt2) perm2).1.w = (solveTyped cs sqrtF s perm1).1.w ∧
+    (solveTyped cs sqrtF (retarget s be2 kkt2) perm2).1.info = (solveTyped cs sqrtF s perm1).1.info := by
+  obtain ⟨hρ0, hδ0, hrl, hτ0⟩ := verify_facts s.st hv
+  have hin1 : (Solver.env cs sqrtF s perm1).inner = innerLDLT (Solver.env cs sqrtF s perm1).be perm1 := by
+    simp only [Solver.env, execInner, hsp1, Bool.false_eq_true, if_false]
+  have hE := env_retarget cs sqrtF s be2 kkt2 perm1 perm2 hsp2
+  have hP' : ∀ x : Vec K n, 0 ≤ quad (Solver.env cs sqrtF s perm1).data.Psym x := hP
+  obtain ⟨hst1, hpair1⟩ := solve_start_facts cs sqrtF s perm1 hv hc1 hki
+  obtain ⟨hst2, hpair2⟩ := solve_start_facts cs sqrtF (retarget s be2 kkt2) perm2 hv hc2 hki
+  rw [hE] at hst2 hpair2
+  have hw0 : (solveStart cs sqrtF (retarget s be2 kkt2) perm2).1 = (solveStart cs sqrtF s perm1).1 := rfl
+  have hi0 : (solveStart cs sqrtF (retarget s be2 kkt2) perm2).2.2 = (solveStart cs sqrtF s perm1).2.2 := rfl
+  rw [hw0, hi0] at hst2 hpair2
+  have hk2 : (retarget s be2 kkt2).kkt = kkt2 := rfl
+  rw [hk2] at hst2 hpair2
+  have I1 := realOps_convInv (Solver.env cs sqrtF s perm1) (factor_after_rescale (Solver.env cs sqrtF s perm1) perm1 hp1 hsp1 hin1 hP') hτ0 hτ1 heps hft
+  have I2 := realOps_convInv (withBackend (Solver.env cs sqrtF s perm1) be2 perm2)
+    (factor_after_rescale (withBackend (Solver.env cs sqrtF s perm1) be2 perm2) perm2 hp2 hsp2 rfl hP') hτ0 hτ1 heps hft
+  obtain ⟨hfa1, hinv1⟩ := I1.rescale false _ _ hst1
+  obtain ⟨hfa2, hinv2⟩ := I2.rescale false _ _ hst2
+  have F1 := factored_after_rescale (Solver.env cs sqrtF s perm1) perm1 hp1 hsp1 hin1 hP' _ _ hst1
+  have F2 := factored_after_rescale (withBackend (Solver.env cs sqrtF s perm1) be2 perm2) perm2 hp2 hsp2 rfl hP' _ _ hst2
+  have S := scalings_after_rescale (Solver.env cs sqrtF s perm1) (withBackend (Solver.env cs sqrtF s perm1) be2 perm2) rfl s.kkt kkt2
+    (solveStart cs sqrtF s perm1).1 (solveStart cs sqrtF s perm1).2.2.rho (solveStart cs sqrtF s perm1).2.2.delta false hss
+  rw [← hpair1] at hfa1 hinv1
+  rw [← hpair2] at hfa2 hinv2
+  have hfa1' : ((realOps (Solver.env cs sqrtF s perm1)).factor s.refineOn ((solveStart cs sqrtF s perm1).1, (solveStart cs sqrtF s perm1).2.1)).2 = true := by
+    rw [hr]; exact hfa1
+  have hfa2' : ((realOps (Solver.env cs sqrtF (retarget s be2 kkt2) perm2)).factor (retarget s be2 kkt2).refineOn
+      ((solveStart cs sqrtF (retarget s be2 kkt2) perm2).1, (solveStart cs sqrtF (retarget s be2 kkt2) perm2).2.1)).2 = true := by
+    rw [hE]
+    have : (retarget s be2 kkt2).refineOn = false := hr
+    rw [this, hw0]; exact hfa2
+  rw [solveTyped_of_factor cs sqrtF s perm1 hv hfa1', solveTyped_of_factor cs sqrtF (retarget s be2 kkt2) perm2 hv hfa2']
+  simp only
+  rw [hE]
+  have hr2 : (retarget s be2 kkt2).refineOn = false := hr
+  rw [hr2, hr, hw0, hi0]
+  -- name the two factorised KKT objects
+  obtain ⟨k1, hk1⟩ : ∃ k, ((realOps (Solver.env cs sqrtF s perm1)).factor false ((solveStart cs sqrtF s perm1).1, (solveStart cs sqrtF s perm1).2.1)).1.2 = k := ⟨_, rfl⟩
+  obtain ⟨k2, hk2'⟩ : ∃ k, ((realOps (withBackend (Solver.env cs sqrtF s perm1) be2 perm2)).factor false
+      ((solveStart cs sqrtF s perm1).1, (solveStart cs sqrtF (retarget s be2 kkt2) perm2).2.1)).1.2 = k := ⟨_, rfl⟩
+  have F1' : Factored s.be s.data k1 := by rw [← hk1, hpair1]; exact F1
+  have F2' : Factored be2 s.data k2 := by rw [← hk2', hpair2]; exact F2
+  have S' : SameScalings k1 k2 := by rw [← hk1, ← hk2', hpair1, hpair2]; exact S
+  have C1 : C13.CachesOk s.be s.data k1 := by rw [← hk1]; exact hinv1.2.1
+  have C2 : C13.CachesOk be2 s.data k2 := by rw [← hk2']; exact hinv2.2.1
+  rw [hk1, hk2']
+  have hip : initialPoint cs (retarget s be2 kkt2) (withBackend (Solver.env cs sqrtF s perm1) be2 perm2)
+      (solveStart cs sqrtF s perm1).1 k2 (solveStart cs sqrtF s perm1).2.2 false =
+      { initialPoint cs s (Solver.env cs sqrtF s perm1) (solveStart cs sqrtF s perm1).1 k1 (solveStart cs sqrtF s perm1).2.2 false with kkt := k2 } := by
+    unfold initialPoint
+    simp only [ipBeforeShift_agree cs sqrtF s be2 kkt2 perm1 perm2 (solveStart cs sqrtF s perm1).1 k1 k2 hP F1' F2' S']
+    rfl
+  have hcone := C08.initialPoint_in_cone cs s (Solver.env cs sqrtF s perm1) (solveStart cs sqrtF s perm1).1 k1
+      (solveStart cs sqrtF s perm1).2.2 false hnl hnu h15 h05 (hguard _ _ _)
+  obtain ⟨_, _, hr0, hd0, hl0⟩ := hinv1
+  have hpos : 0 < (initialPoint cs s (Solver.env cs sqrtF s perm1) (solveStart cs sqrtF s perm1).1 k1 (solveStart cs sqrtF s perm1).2.2 false).info.rho ∧
+      0 < (initialPoint cs s (Solver.env cs sqrtF s perm1) (solveStart cs sqrtF s perm1).1 k1 (solveStart cs sqrtF s perm1).2.2 false).info.delta ∧
+      0 < (initialPoint cs s (Solver.env cs sqrtF s perm1) (solveStart cs sqrtF s perm1).1 k1 (solveStart cs sqrtF s perm1).2.2 false).info.regLimit := by
+    unfold initialPoint; simp only
+    refine ⟨?_, ?_, ?_⟩
+    · split <;> exact hr0
+    · split <;> exact hd0
+    · split <;> exact hl0
+  have T := trajectories_agree (Solver.env cs sqrtF s perm1) perm1 perm2 hp1 hp2 be2 hsp1 hsp2 hin1 hP' hτ0 hτ1 heps hft
+    (initialPoint cs s (Solver.env cs sqrtF s perm1) (solveStart cs sqrtF s perm1).1 k1 (solveStart cs sqrtF s perm1).2.2 false) k2 rfl
+    (by rw [C04.initialPoint_kkt]; exact S')
+    ⟨hcone, by rw [C04.initialPoint_kkt]; exact C1, hpos.1, hpos.2.1, hpos.2.2⟩
+    ⟨hcone, C2, hpos.1, hpos.2.1, hpos.2.2⟩
+  rw [hip]
+  refine ⟨T.1, ?_, T.2.2.1⟩
+  rw [T.2.1]
+  rfl
+end solveLevel
 end Piqp.C10
